@@ -338,6 +338,24 @@ func (w *wrap) PushRune(r rune) int {
 func (w *wrap) Token() int { return w.sm.Token() }
 func (w *wrap) Reset()     { w.sm.Reset(); if w.full { w.steps = append(w.steps, [5]int{-2, -2, 0, 0, 0}) } }
 
+func seqInts(a, b int) []int {
+	var out []int
+	for v := a; v <= b; v++ {
+		out = append(out, v)
+	}
+	return out
+}
+
+// safeName evaluates _TokenToString(v); a panic is an observation ("PANIC"), not a harness failure
+func safeName(f func(int) string, v int) (name string) {
+	defer func() {
+		if e := recover(); e != nil {
+			name = "PANIC"
+		}
+	}()
+	return f(v)
+}
+
 func encode(in []int) []byte {
 	var b []byte
 	for _, r := range in {
@@ -415,8 +433,8 @@ func main() {
 		}
 		if j.Names > 0 {
 			nr := nameRec{Case: j.Case}
-			for v := -1; v <= j.Names; v++ {
-				nr.Names = append(nr.Names, [2]any{v, s.Name(v)})
+			for _, v := range append([]int{-1000000, -2}, seqInts(-1, j.Names)...) {
+				nr.Names = append(nr.Names, [2]any{v, safeName(s.Name, v)})
 			}
 			enc.Encode(nr)
 		}
